@@ -120,7 +120,7 @@ theorem step_grants (a : ArraySized) (op : Spec.SSeq.Op Elem) (m : Mem) (h : a.I
   | contains x => exact grants_of_sched _ _ _ hg (by simp only [step, contains_spec a x m h hw])
   | map f => exact grants_of_sched _ _ _ hg (by simp only [step]; rw [(map_spec a f m h hw).2.1])
   | reduce fn r0 => exact grants_of_sched _ _ _ hg (by simp only [step, reduce_spec a fn r0 m h])
-  | sort sortFn => exact hg
+  | sort sortFn => exact grants_of_sched _ _ _ hg (by simp only [step, sort, Mem.check_sched])
 
 /-- **a call is refused only when the allocator refuses or the size limit is reached** (one call) -/
 theorem step_unrefused (a : ArraySized) (op : Spec.SSeq.Op Elem) (m : Mem) (h : a.Inv) (hw : OpWF a.dataLen op)
@@ -136,7 +136,7 @@ theorem step_unrefused (a : ArraySized) (op : Spec.SSeq.Op Elem) (m : Mem) (h : 
     · subst hs
       have := h8 hr
       rw [(grants_alloc a.triple m hg).1] at this; cases this
-    · subst hs; exact absurd (h9 hr) hl
+    · subst hs; exact absurd (h9 hr).1 hl
 
 /-- … and at history level: with a granting allocator, a history during which the array never stands
 at its size limit is not refused anywhere — the ideal sequence is then run without any refusal input -/
